@@ -348,7 +348,7 @@ def cf2d(rng, *, ny=None, nx=None, bounds=None, holes=None, shoc_simple=False, a
 # --------------------------------------------------------------------------------------------
 # Arakawa C / SHOC standard
 
-def arakawa(rng, *, nj=None, ni=None, holes=None, shoc=True, invalid=None, transposed_coords=()):
+def arakawa(rng, *, nj=None, ni=None, holes=None, shoc=True, invalid=None, transposed_coords=(), orphan_nodes=False):
     nj = nj or rng.randint(1, 5)
     ni = ni or rng.randint(1, 5)
     ax, ay = rng.choice([(8, 0), (8, 2), (6, -2)])
@@ -373,6 +373,14 @@ def arakawa(rng, *, nj=None, ni=None, holes=None, shoc=True, invalid=None, trans
         for i in range(ni):
             if not hole[j, i]:
                 node_missing[j:j + 2, i:i + 2] = False
+    if orphan_nodes:
+        # a ragged land mask: some nodes of the masked region keep their coordinates although every cell around them still
+        # lacks another corner (such a node belongs to no cell that has a polygon)
+        for (j, i) in [(jj, ii) for jj in range(nj + 1) for ii in range(ni + 1) if node_missing[jj, ii]]:
+            around = [(a, b) for a in (j - 1, j) for b in (i - 1, i) if 0 <= a < nj and 0 <= b < ni]
+            others_missing = all(any(node_missing[c, e] for c in (a, a + 1) for e in (b, b + 1) if (c, e) != (j, i)) for a, b in around)
+            if others_missing and rng.random() < 0.6:
+                node_missing[j, i] = False
     if invalid is None:
         invalid = rng.random() < 0.2
     if invalid and ni >= 1:
@@ -798,4 +806,19 @@ def shift_coordinates(ds, dlon=0.0, dlat=0.0, max_lat=85.0):
             v = ds[n]
             new = xarray.Variable(v.dims, v.values + delta, v.attrs, v.encoding)
             out = out.assign_coords({n: new}) if n in ds.coords else out.assign({n: new})
+    return out
+
+
+def label_dimensions(rng, ds, dims):
+    """give the named dimensions index coordinates with unsorted labels (station numbers, row ids ...): positions, not
+    labels, say which cell is which"""
+    out = ds
+    for k, x in enumerate(dims):
+        if x in ds.coords or x not in ds.sizes or str(x) in ('lat', 'lon', 'latitude', 'longitude', 'x', 'y'):
+            continue        # (a label coordinate called 'lat' would collide with the latitude column of a points table)
+        n = ds.sizes[x]
+        labels = [100 * (k + 1) + v for v in range(n)]
+        rng.shuffle(labels)
+        out = out.assign_coords({x: (x, numpy.array(labels, dtype='i4'), {'long_name': f'{x} label'})})
+    out.encoding = dict(ds.encoding)
     return out
